@@ -4,6 +4,7 @@ Property C15 — saved iterations restore exactly what was saved.  Refinement of
 counter, folder changes in between) to an append-only log, for any interleaving of solve /
 save / change-folder / restore / query operations.
 -/
+import EasyFEAVerif.Model.MeshStore
 import EasyFEAVerif.Gen.C15.MeshHistory
 import Mathlib.Tactic.Common
 import Mathlib.Data.List.Basic
@@ -290,11 +291,104 @@ end MeshHist
 
 /-- the statements the model was written from (regenerated on every run; a rewrite of any of them breaks this obligation) -/
 theorem meshForms_spec : EasyFEAVerif.Gen.C15.meshForms =
-    [("mesh.setter", ["self.__NindexMesh += 1", "self.__indexMesh = self.__NindexMesh", "self.__listMesh.append(mesh)", "self.__mesh = mesh", "mesh._Add_observer(self)"]),
+    [
+     ("mesh.setter", ["self.__NindexMesh += 1", "self.__indexMesh = self.__NindexMesh", "self.__listMesh.append(mesh)", "self.__mesh = mesh", "mesh._Add_observer(self)"]),
      ("Save_Iter", ["iter['indexMesh'] = self.__indexMesh"]),
      ("Set_Iter", ["results = self.Get_results(iter)", "indexMesh = results['indexMesh']", "self.__indexMesh = indexMesh", "self.__Update_mesh(indexMesh)"]),
-     ("__Update_mesh", ["mesh = self.__listMesh[index]", "self.__mesh = mesh", "clear_cached_computed_values(self)", "self.Need_Update()"]),
+     ("__Update_mesh", ["mesh = self.__listMesh[index]", "mesh = self.__Load_mesh(mesh)", "self.__mesh = mesh", "clear_cached_computed_values(self)", "self.Need_Update()"]),
+     ("Save", ["self.folder = folder", "folder_meshes = Folder.Join(folder, 'Meshes')", "mesh = self.__Load_mesh(mesh)", "path = mesh.Save(folder_meshes, f'mesh{i}')", "list_mesh.append(Folder.os.path.relpath(path, folder))", "self.__listMesh = list_mesh", "self.__folderMeshes = folder", "pickle.dump(self, file)"]),
+     ("__Load_mesh", ["folder = self.__folderMeshes", "return Load_Mesh(Folder.Join(folder, mesh))"]),
+     ("folder.setter", ["self.__folder = value"]),
      ("__init__", ["self.__NindexMesh: int = -1", "self.__listMesh: list[Union[str, Mesh]] = []"])] := by
   decide
 
 end EasyFEAVerif.Props.C15
+
+/-! ### Where the meshes of the history live after `Save` (Model/MeshStore.lean) -/
+
+namespace EasyFEAVerif.Props.C15.MeshStoreP
+open EasyFEAVerif.MeshStore
+
+/-- the stored history represents `h`: same length, and every entry reads back as the mesh of `h` -/
+def Refines {M : Type} (s : St M) (h : List M) : Prop :=
+  s.list.length = h.length ∧ ∀ i (hi : i < h.length), readMesh s i = some h[i]
+
+theorem init_refines {M : Type} (m0 : M) : Refines (init m0) [m0] := by
+  refine ⟨rfl, ?_⟩
+  intro i hi
+  have : i = 0 := by simpa using hi
+  subst this
+  rfl
+
+theorem get_isSome {M : Type} (s : St M) (h : List M) (hr : Refines s h) (i : Nat) (hi : i < s.list.length) : (readMesh s i).isSome = true := by
+  have hi' : i < h.length := hr.1 ▸ hi
+  rw [hr.2 i hi']; rfl
+
+/-- the fixed code never fails, and every operation keeps the refinement -/
+theorem step_refines {M : Type} (s : St M) (h : List M) (hr : Refines s h) (op : Op M) :
+    ∃ s', step s op = some s' ∧ Refines s' (specStep h op) := by
+  cases op with
+  | setMesh m =>
+    refine ⟨_, rfl, ?_, ?_⟩
+    · simp [specStep, hr.1]
+    · intro i hi
+      simp only [specStep, List.length_append, List.length_singleton] at hi
+      by_cases hlt : i < h.length
+      · have := hr.2 i hlt
+        simp only [readMesh, load] at this ⊢
+        have hl : i < s.list.length := hr.1 ▸ hlt
+        simp only [specStep, List.getElem?_append_left hl, List.getElem_append_left hlt]
+        exact this
+      · have he : i = h.length := by omega
+        subst he
+        simp [readMesh, load, specStep, ← hr.1]
+  | setFolder f =>
+    refine ⟨_, rfl, hr.1, ?_⟩
+    intro i hi
+    exact hr.2 i hi
+  | save f =>
+    have hall : ((List.range s.list.length).map (readMesh { s with folder := f })).all Option.isSome = true := by
+      rw [List.all_eq_true]
+      intro x hx
+      rw [List.mem_map] at hx
+      obtain ⟨i, hi, rfl⟩ := hx
+      have hi' : i < s.list.length := by simpa using hi
+      exact get_isSome s h hr i hi'
+    refine ⟨savedState readMesh s f, by simp only [step, stepWith, saveWith, hall, if_true], ?_, ?_⟩
+    · simpa [specStep, savedState] using hr.1
+    · intro i hi
+      have hi' : i < s.list.length := by simpa [specStep, hr.1] using hi
+      have hg := hr.2 i (by simpa [specStep] using hi)
+      simp only [readMesh, load, savedState, List.getElem?_map, List.getElem?_eq_getElem hi', Option.map_some, if_true, hi', specStep]
+      simp only [List.getElem?_range hi', Option.map_some, Option.join_some]
+      exact hg
+
+/-- **after any sequence of mesh replacements, folder changes and saves (in any folders, the same one twice included),
+every mesh of the history reads back as the mesh the simulation held** -/
+theorem run_refines {M : Type} (m0 : M) (ops : List (Op M)) :
+    ∃ s, runWith readMesh (init m0) ops = some s ∧ Refines s (ops.foldl specStep [m0]) := by
+  suffices H : ∀ (ops : List (Op M)) (s : St M) (h : List M), Refines s h →
+      ∃ s', runWith readMesh s ops = some s' ∧ Refines s' (ops.foldl specStep h) from H ops _ _ (init_refines m0)
+  intro ops
+  induction ops with
+  | nil => intro s h hr; exact ⟨s, rfl, hr⟩
+  | cons op ops ih =>
+    intro s h hr
+    obtain ⟨s1, h1, hr1⟩ := step_refines s h hr op
+    obtain ⟨s2, h2, hr2⟩ := ih s1 _ hr1
+    refine ⟨s2, ?_, hr2⟩
+    show (stepWith readMesh s op).bind _ = _
+    have : stepWith readMesh s op = some s1 := h1
+    rw [this]; exact h2
+
+/-- before the repair: saving a second time in another folder fails (the meshes are looked for in the new folder) -/
+theorem unfixed_second_save_fails : runWith readMeshUnfixed (init (7 : Nat)) [.save 1, .save 2] = none := by
+  decide
+
+/-- before the repair: after a save, a change of folder loses the meshes of the history -/
+theorem unfixed_folder_change_loses_meshes :
+    ((runWith readMeshUnfixed (init (7 : Nat)) [.save 1, .setFolder 2]).bind fun s => readMeshUnfixed s 0) = none ∧
+    ((runWith readMesh (init (7 : Nat)) [.save 1, .setFolder 2]).bind fun s => readMesh s 0) = some 7 := by
+  decide
+
+end EasyFEAVerif.Props.C15.MeshStoreP
